@@ -148,7 +148,11 @@ func (g *GaussianSampler) read(pol Poly, f func(a, b, c uint64) uint64) {
 			}
 
 			for j, qi := range moduli {
-				coeffs[j][i] = f(coeffs[j][i], coeff.Mod(normInt, Qi[j]).Uint64(), qi)
+				c := coeff.Mod(normInt, Qi[j]).Uint64()
+				if g.montgomery {
+					c = MForm(c, qi, r.SubRings[j].BRedConstant)
+				}
+				coeffs[j][i] = f(coeffs[j][i], c, qi)
 			}
 		}
 
@@ -175,14 +179,17 @@ func (g *GaussianSampler) read(pol Poly, f func(a, b, c uint64) uint64) {
 					c %= qi
 				}
 
-				coeffs[j][i] = f(coeffs[j][i], (c*sign)|(qi-c)*(sign^1), qi)
+				c = (c * sign) | (qi-c)*(sign^1)
+
+				if g.montgomery {
+					c = MForm(c, qi, r.SubRings[j].BRedConstant)
+				}
+
+				coeffs[j][i] = f(coeffs[j][i], c, qi)
 			}
 		}
 	}
 
-	if g.montgomery {
-		g.baseRing.MForm(pol, pol)
-	}
 }
 
 // NormFloat64 returns a normally distributed float64 in
